@@ -253,6 +253,31 @@ Fixpoint nested_rep (r : re) : bool :=
   | RRep r _ _ => has_rep r
   | _ => false
   end.
+(* regexp/syntax repeatIsValid(re, n): the combination of a repetition with its inner repetitions must not
+   exceed n copies of the innermost thing (checked by the parser for every {min,max} with min >= 2 or max >= 2,
+   n = 1000) *)
+Fixpoint repeat_valid (r : re) (n : nat) : bool :=
+  match r with
+  | RCat l | RAlt l => (fix go (l : list re) : bool := match l with [] => true | x :: l' => repeat_valid x n && go l' end) l
+  | RStar r' | RPlus r' | ROpt r' => repeat_valid r' n
+  | RRep r' mn mx =>
+    match mx with
+    | Some 0 => true
+    | _ =>
+      let m := match mx with Some m => m | None => mn end in
+      if (n <? m)%nat then false else repeat_valid r' (if (0 <? m)%nat then (n / m)%nat else n)
+    end
+  | _ => true
+  end.
+Fixpoint reps_ok (r : re) : bool :=
+  match r with
+  | RCat l | RAlt l => (fix go (l : list re) : bool := match l with [] => true | x :: l' => reps_ok x && go l' end) l
+  | RStar r' | RPlus r' | ROpt r' => reps_ok r'
+  | RRep r' mn mx =>
+    reps_ok r' &&
+    (if (2 <=? mn)%nat || match mx with Some m => (2 <=? m)%nat | None => false end then repeat_valid r 1000 else true)
+  | _ => true
+  end.
 Fixpoint nested_opt (r : re) (k : nat) : list re :=
   match k with O => [] | S k' => [ROpt (RCat (r :: nested_opt r k'))] end.
 Fixpoint desugar (r : re) : re :=
@@ -276,8 +301,8 @@ Definition parse_re (s : bytes) : res re :=
   match parse_from (PS ([], []) [] false false) ts with
   | PS cur [] _ _ =>
     let r := close_frame cur in
-    (* RE2 bounds the size of nested counted repetitions; those are outside the fragment *)
-    if nested_rep r then Unsupported else Ok (desugar r)
+    (* RE2 bounds the size of nested counted repetitions (ErrInvalidRepeatSize) *)
+    if nested_rep r && negb (reps_ok r) then Err else Ok (desugar r)
   | _ => Err
   end.
 
